@@ -291,10 +291,90 @@ theorem uniform_of_uniformB (T : Table) (h : uniformB T = true) : Uniform T := b
 /-- the hypothesis holds of the table regenerated from `parser/src/lib.rs` -/
 theorem table_uniform : Uniform T := uniform_of_uniformB T (by decide)
 
+/-! ## the loop terminates within the fuel `parse` gives it, and never reaches a `panic!` on a chain -/
+
+theorem flatten_ne_nil : ∀ t : Tree, flatten t ≠ []
+  | .prim _ => by simp [flatten]
+  | .pre _ _ => by simp [flatten]
+  | .post _ _ => by simp [flatten]
+  | .bin _ _ _ => by simp [flatten]
+
+/-- with fuel `2·n + 2` for `n` tokens both `expr` and `loop` answer -/
+theorem total_aux (T : Table) (hu : Uniform T) : ∀ (n : Nat),
+    (∀ toks rbp f, toks.length ≤ n → altP T toks = true → 2 * toks.length + 2 ≤ f →
+      ∃ t rest, Pratt.expr T f toks rbp = .ok (t, rest)) ∧
+    (∀ lhs toks rbp f, toks.length ≤ n → altO T toks = true → 2 * toks.length + 1 ≤ f →
+      ∃ t rest, Pratt.loop T f lhs toks rbp = .ok (t, rest)) := by
+  intro n
+  induction n with
+  | zero =>
+    constructor
+    · intro toks rbp f hl ha _
+      have : toks = [] := by cases toks <;> simp_all
+      subst this; simp [altP] at ha
+    · intro lhs toks rbp f hl ha hf
+      have : toks = [] := by cases toks <;> simp_all
+      subst this
+      obtain ⟨k, rfl⟩ : ∃ k, f = k + 1 := ⟨f - 1, by omega⟩
+      exact ⟨lhs, [], by simp [Pratt.loop]⟩
+  | succ n ih =>
+    obtain ⟨ihe, ihl⟩ := ih
+    have hloop : ∀ lhs toks rbp f, toks.length ≤ n + 1 → altO T toks = true → 2 * toks.length + 1 ≤ f →
+        ∃ t rest, Pratt.loop T f lhs toks rbp = .ok (t, rest) := by
+      intro lhs toks rbp f hl ha hf
+      obtain ⟨k, rfl⟩ : ∃ k, f = k + 1 := ⟨f - 1, by omega⟩
+      cases toks with
+      | nil => exact ⟨lhs, [], by simp [Pratt.loop]⟩
+      | cons o rest0 =>
+        simp only [altO, Bool.and_eq_true, Option.isSome_iff_exists] at ha
+        obtain ⟨⟨⟨p, ra⟩, hip⟩, hrest0⟩ := ha
+        have hget := infixPrec_get hip
+        simp only [List.length_cons] at hl hf
+        by_cases hlt : rbp < p
+        · -- the right operand, then the loop again on what is left
+          obtain ⟨rhs, rest', he⟩ := ihe rest0 (rbpOf p ra) k (by omega) hrest0 (by omega)
+          obtain ⟨e1, _, e3, _, _⟩ := (inv_all T hu k).expr rest0 (rbpOf p ra) rhs rest' hrest0 he
+          have hlen : rest'.length + 1 ≤ rest0.length := by
+            have := congrArg List.length e1
+            simp only [List.length_append] at this
+            have := List.length_pos_iff.mpr (flatten_ne_nil rhs)
+            omega
+          obtain ⟨t, rest, hl2⟩ := ihl (.bin lhs o rhs) rest' rbp k (by omega) e3 (by omega)
+          refine ⟨t, rest, ?_⟩
+          cases ra with
+          | false =>
+            have hget' : T.get o.rule = some (.infixL, p) := by simpa using hget
+            have he' : Pratt.expr T k rest0 p = .ok (rhs, rest') := by simpa [rbpOf] using he
+            simp only [Pratt.loop, hget', hlt, if_true, he', hl2]
+          | true =>
+            have hget' : T.get o.rule = some (.infixR, p) := by simpa using hget
+            have he' : Pratt.expr T k rest0 (p - 1) = .ok (rhs, rest') := by simpa [rbpOf] using he
+            simp only [Pratt.loop, hget', hlt, if_true, he', hl2]
+        · exact ⟨lhs, o :: rest0, by simp only [Pratt.loop, hget, hlt, if_false]⟩
+    refine ⟨?_, hloop⟩
+    intro toks rbp f hl ha hf
+    obtain ⟨k, rfl⟩ : ∃ k, f = k + 1 := ⟨f - 1, by omega⟩
+    cases toks with
+    | nil => simp [altP] at ha
+    | cons p0 rest0 =>
+      simp only [altP, Bool.and_eq_true, isPrim, Option.isNone_iff_eq_none] at ha
+      simp only [List.length_cons] at hl hf
+      obtain ⟨k', rfl⟩ : ∃ k', k = k' + 1 := ⟨k - 1, by omega⟩
+      obtain ⟨t, rest, hl2⟩ := hloop (.prim p0) rest0 rbp (k' + 1) (by omega) ha.2 (by omega)
+      exact ⟨t, rest, by simp only [Pratt.expr, Pratt.nud, ha.1, hl2]⟩
+
+/-- on an operand / binary-operator chain of ANY length the Pratt loop does not panic and does not run out of the fuel
+    `parse` gives it: it answers a tree, the tree reads back as the chain and is precedence-correct at every node -/
+theorem parse_chain_total (T : Table) (hu : Uniform T) (toks : List Tok) (ha : altP T toks = true) :
+    ∃ t, Pratt.parse T toks = .ok t ∧ flatten t = toks ∧ PC T t := by
+  obtain ⟨t, rest, he⟩ := (total_aux T hu toks.length).1 toks 0 (3 * toks.length + 3) (Nat.le_refl _) ha (by omega)
+  have hp : Pratt.parse T toks = .ok t := by simp only [Pratt.parse, he]
+  exact ⟨t, hp, parse_chain_flatten T hu toks t ha hp, parse_chain_grouping T hu toks t ha hp⟩
+
 /-- the unbounded statement for the parser's own table -/
-theorem parser_chain_grouping (toks : List Tok) (t : Tree) (ha : altP T toks = true)
-    (h : Pratt.parse T toks = .ok t) : flatten t = toks ∧ PC T t :=
-  ⟨parse_chain_flatten T table_uniform toks t ha h, parse_chain_grouping T table_uniform toks t ha h⟩
+theorem parser_chain_grouping (toks : List Tok) (ha : altP T toks = true) :
+    ∃ t, Pratt.parse T toks = .ok t ∧ flatten t = toks ∧ PC T t :=
+  parse_chain_total T table_uniform toks ha
 
 /-- the premises are satisfiable by a chain of five operators on three levels, and the conclusion
     says what the documentation says about it -/
